@@ -217,6 +217,31 @@ CLAIMS = {
          "shape translator, CPython type/truthiness/== semantics mirrored. Known findings: 58 keys in 12 families (session ids "
          "inside options not range-checked, enc_* asserts, Welcome details unvalidated, ...) listed in known_findings.json.",
          "generated regex AST + Brzozowski derivatives in Coq; schema-language proofs; mutation-grid/octet-fuzz correspondence with spec oracle"),
+ "C02": ("5 C02",
+         "Coq theorems over a Gallina model of the receive path (processData loop, frame/message/control handling, failure "
+         "policy) whose every integer comparison and the allowed close-code set are regenerated from protocol.py on each run: "
+         "header verdict = RFC 6455/7692 verdict for all configurations, both fragmentation states and all 65536 first-two-octet "
+         "values; length rules; close payload; incremental UTF-8 fail-fast; trace-level pong echo; failure policy "
+         "(drop/unclean vs close 1002/1007/1009); nothing delivered after a failure; for both policies and all streams one read "
+         "terminates and is judged exactly as the declarative RFC reference (C02_sequence); segmentation independence proved "
+         "for failByDrop=true from every reachable state, refuted with a witness for failByDrop=false (known finding). "
+         "Differential run: header sweep in 64 receiver contexts (thorough: all 65536 values), mutated frame sequences under "
+         "every split, both roles and frameworks, judged by an independent RFC oracle and re-evaluated by the model.",
+         "Trusted: Coq kernel, the ast/import translator (fail-closed), CPython utf-8 codec and zlib as oracles. Modelled, not "
+         "verified: the UTF-8 validator as the RFC 3629 automaton (table equality is C09), the masker as xor_spec (C15), the "
+         "decompressor as a Section oracle; timers, statistics, asyncio receive queue unmodelled. Known findings: split-dependent/"
+         "failByDrop=False, client/processing-after-close-frame, control-callback-after-violation (2).",
+         "generated constants, field-level vm_compute sweep, invariant and simulation proofs, differential runs"),
+ "C16": ("5 C16",
+         "Coq theorems over the same receive model: no message above maxMessagePayloadSize is ever delivered (all streams, "
+         "segmentations, policies; uncompressed connections), the 1009 failure is raised in the step that completes the "
+         "offending header (header octets alone suffice), running total over fragments, runs without a 1009 are identical to "
+         "runs without limits, over-limit sendMessage raises and writes nothing; the decompression cap statement is refuted on "
+         "the model with a witness (known findings), with the partial positive for chunks within the cap. Differential run: "
+         "limits grid x sizes L-1/L/L+1/10L x fragment layouts x role x policy x delivery shapes, send guard, real-zlib cap.",
+         "Partial: zlib is an oracle (stream laws in theorems, replay tape in runs); limits bound the wire payload. Known "
+         "findings: decompress-cap/truncated, decompress-cap/escaped-error.",
+         "invariants, simulation, refutation witness, differential runs"),
 }
 NOT_YET = {}
 
